@@ -981,3 +981,19 @@ def self_field_assign_blocks(fn, adt_path, include_mut_borrows=False):
                 if adt == adt_path:
                     out[fld].append(bi)
     return out
+
+
+WRITER_SINKS = r"Hasher::update$|Vec.*::extend_from_slice$|Vec.*::push$|::push_\w+$|::update_len_prefixed$|::write_\w+$|::put_\w+$|::extend$|String::push_str$"
+
+
+def writer_coverage(prog, fn, adt_path, sink_pat=WRITER_SINKS, control=True):
+    """Fields of adt_path (first variant, or all variants) that reach a sink in fn's tree.  Returns (covered set of
+    field names, all field names, number of sinks)."""
+    fns, _ = tree(prog, [fn])
+    cov, ns = sink_field_atoms(fns, sink_pat)
+    names = {f for (a, v, f) in cov if a == adt_path}
+    if control:
+        names |= {f for (a, v, f) in control_field_atoms(fns, sink_pat) if a == adt_path}
+    adt = prog.adt(adt_path)
+    allf = [f["n"] for v in adt["variants"] for f in v["fields"]]
+    return names, allf, ns
